@@ -212,6 +212,9 @@ class R:
             if name in ("max", "min", "mean", "median", "std", "var", "any_value"):
                 return None
             if name == "nunique":
+                # a count: over zero rows Polars' un-grouped project returns its all-null row (destination convention)
+                if n_rows == 0 and self.conv == "polars":
+                    return None
                 return 0
             raise Unspecified(name + " of nothing")
         if name == "max":
@@ -527,7 +530,10 @@ class R:
     def _b_table(self, st, data, states):
         b = st["b"]
         if "prefix" in b:
-            return states[b["prefix"]]
+            c, r = states[b["prefix"]]
+            for st2 in b.get("steps", []):
+                c, r = self.step(st2, c, r, data, states, final=False)
+            return c, r
         sub = R(self.conv, self.dev)
         c, r = sub.eval_rows(b, data)
         self.triggered |= sub.triggered
